@@ -17,8 +17,9 @@
   `mkdatetime`/`timegm` compute for valid dates); a TSTEP value is a non-negative rational
   number of days `num/den`, converted with truncation as `duration_cast` does.
 
-  The restart / SKIPREST variant (keywords of the skipped part are dropped except a white
-  list which goes to block 0) is NOT modelled; see design.d/C03.md.
+  The restart / SKIPREST variant is modelled at the end of this file (`rblocks`): placeholder
+  blocks 0 .. report_step-1, keywords of the skipped part dropped except a white list which goes
+  to block 0, the SKIPREST error when the restart time is stepped over.
 -/
 namespace OpmVerif.Sched
 
@@ -57,7 +58,7 @@ deriving DecidableEq, Repr
 /-- `duration_cast<milliseconds>(duration<double>(days * 86400))`, truncating. -/
 def Dur.ms (v : Dur) : Int := ((v.num * 86400000 / v.den : Nat) : Int)
 
-inductive TType | start | dates | tstep
+inductive TType | start | dates | tstep | restart
 deriving DecidableEq, Repr
 
 structure Block (κ : Type) where
@@ -96,7 +97,7 @@ def Kw.events {κ} : Kw κ → List (Ev κ)
 
 def flatten {κ} (kws : List (Kw κ)) : List (Ev κ) := kws.flatMap Kw.events
 
-inductive DeckErr | dateBackwards | negativeTstep
+inductive DeckErr | dateBackwards | negativeTstep | skiprestMissed
 deriving DecidableEq, Repr
 
 /-- Constructor state: closed blocks (in order), the open block, `context.last_time`. -/
@@ -150,5 +151,91 @@ def Kw.isTime {κ} : Kw κ → Bool
   | .dates _ => true
   | .tstep _ => true
   | _ => false
+
+/-! ### restarted runs (`rst_info.report_step > 0`, optionally SKIPREST)
+
+    m_blocks = report_step placeholder blocks at start_time (block 0 START, the others RESTART,
+               end_time = start_time);
+               without SKIPREST: the last one ends at the restart time and a RESTART block at the
+               restart time is opened
+    context  = (rst_skip = skiprest, last_time = m_blocks.back().start_time())
+    other keyword: rst_skip ? (white-listed ? m_blocks[0].push_back : dropped) : m_blocks.back().push_back
+    add_block(t): last_time = t;
+                  rst_skip: t < restart_time => return (no block);  t == restart_time => rst_skip = false;
+                            t > restart_time => SKIPREST error
+                  m_blocks.back().end_time(t); m_blocks.emplace_back(type, t)
+-/
+
+structure RCfg where
+  /-- rst_info.report_step -/
+  rstep : Nat
+  /-- rst_info.time in ms -/
+  rtime : Time
+  skiprest : Bool
+deriving DecidableEq, Repr
+
+structure RSt (κ : Type) where
+  closed : List (Block κ)
+  cur : Block κ
+  last : Time
+  /-- context.rst_skip -/
+  skip : Bool
+
+def RSt.all {κ} (s : RSt κ) : List (Block κ) := s.closed ++ [s.cur]
+
+def placeholder {κ} (start : Time) (i : Nat) : Block κ :=
+  { ttype := if i = 0 then .start else .restart, start := start, stop := some start, kws := [] }
+
+def rinit {κ} (cfg : RCfg) (start : Time) : RSt κ :=
+  match cfg.rstep with
+  | 0 => { closed := [], cur := { ttype := .start, start := start, stop := none, kws := [] }, last := start, skip := cfg.skiprest }
+  | n + 1 =>
+    let pre : List (Block κ) := (List.range n).map (placeholder start)
+    if cfg.skiprest then
+      { closed := pre, cur := placeholder start n, last := start, skip := true }
+    else
+      { closed := pre ++ [{ (placeholder start n : Block κ) with stop := some cfg.rtime }],
+        cur := { ttype := .restart, start := cfg.rtime, stop := none, kws := [] }, last := cfg.rtime, skip := false }
+
+/-- `m_blocks[0].push_back(keyword)` -/
+def pushFirst {κ} (s : RSt κ) (k : κ) : RSt κ :=
+  match s.closed with
+  | [] => { s with cur := { s.cur with kws := s.cur.kws ++ [k] } }
+  | b :: r => { s with closed := { b with kws := b.kws ++ [k] } :: r }
+
+def addBlockR {κ} (cfg : RCfg) (s : RSt κ) (ty : TType) (t : Time) : Except DeckErr (RSt κ) :=
+  let close (s : RSt κ) : RSt κ :=
+    { s with closed := s.closed ++ [{ s.cur with stop := some t }],
+             cur := { ttype := ty, start := t, stop := none, kws := [] } }
+  if s.skip then
+    if t < cfg.rtime then .ok { s with last := t }
+    else if t = cfg.rtime then .ok (close { s with last := t, skip := false })
+    else if cfg.skiprest then .error .skiprestMissed
+    else .ok (close { s with last := t, skip := false })
+  else .ok (close { s with last := t })
+
+def stepEvR {κ} (cfg : RCfg) (wl : κ → Bool) (s : RSt κ) : Ev κ → Except DeckErr (RSt κ)
+  | .kw k =>
+    if s.skip then .ok (if wl k then pushFirst s k else s)
+    else .ok { s with cur := { s.cur with kws := s.cur.kws ++ [k] } }
+  | .date d =>
+    if d.seconds < s.last / 1000 then .error .dateBackwards
+    else addBlockR cfg s .dates (d.seconds * 1000)
+  | .step v =>
+    if v.neg then .error .negativeTstep
+    else addBlockR cfg s .tstep (s.last + v.ms)
+
+def runEvsR {κ} (cfg : RCfg) (wl : κ → Bool) (s : RSt κ) : List (Ev κ) → Except DeckErr (RSt κ)
+  | [] => .ok s
+  | e :: r =>
+    match stepEvR cfg wl s e with
+    | .error x => .error x
+    | .ok s' => runEvsR cfg wl s' r
+
+/-- `ScheduleDeck::m_blocks` of a restarted run. -/
+def rblocks {κ} (cfg : RCfg) (wl : κ → Bool) (start : Time) (kws : List (Kw κ)) : Except DeckErr (List (Block κ)) :=
+  match runEvsR cfg wl (rinit cfg start) (flatten kws) with
+  | .error e => .error e
+  | .ok s => .ok s.all
 
 end OpmVerif.Sched
